@@ -1,14 +1,450 @@
 /-
-  C04/Props.lean — property theorems of C04 (work in progress: see design/C04.md)
+  C04/Props.lean — property theorems of C04: no byte sequence crashes or exhausts a decoder or the
+  forwarder's receive path.  Every theorem is for EVERY input.
+
+  Part I  (decoders)      the generated TLV decoders = the generic schema interpreter `Ndn.C13.parse`
+                          instantiated with any schema: parse_total / parse_fuel_free /
+                          parse_alloc_linear, for every schema (no well-formedness hypothesis), every
+                          ignoreCritical flag, every input of at most 2^40 bytes.
+  Part II (receive path)  GetFWThread (dispatch_total), NDNLP link service (reassemble_total,
+                          handleFrame_total, store_bounded, reject_no_state_change), readTlvStream
+                          (stream_no_panic, stream_progress, stream_total).
+  Helper lemmas: ParseLemmas.lean, LinkLemmas.lean.  Core Lean only.
 -/
 import NdnVerif.C04.Model
+import NdnVerif.C04.LinkLemmas
+import NdnVerif.C04.ParseLemmas
 namespace Ndn.C04
 
-theorem getThread_total (n id : Nat) : getThread n id ≠ none := by
-  unfold getThread; split
-  · simp
-  · split
-    · simp
-    · omega
+/-! # Part I — decoders -/
+section Decoders
+open Ndn.C13
+
+
+/-- the three properties in one statement, for an arbitrary input bound `M`: a panic is only
+    possible when `M` exceeds `maxInput` -/
+theorem parse_sat (M : Nat) (s : Schema) (ic : Bool) (b : Bytes) (hM : b.length ≤ M) :
+    Sat (maxInput < M) (parse s ic b) (fun _ a => a ≤ 16 * b.length) (fun a => a ≤ 16 * b.length) :=
+  runSlots_sat M s.ordered (compile s.fields) (compile_good M s.fields) ic b hM
+
+/-! concrete schemas / inputs for the non-vacuity examples -/
+
+/-- one name field of type 7 -/
+def exName : Schema := ⟨"x", false, .cons 7 .name .nil⟩
+/-- ordered model: required natural (type 1), binary (type 2), nested unordered struct (type 3) with a
+    sequence of names -/
+def exNested : Schema :=
+  ⟨"y", true, .cons 1 (.natural false) (.cons 2 .binary (.cons 3 (.struct false (.cons 7 (.seq .name) .nil)) .nil))⟩
+
+/-- PROPERTY (no panic): parsing at most 2^40 arbitrary bytes under any schema never panics. -/
+theorem parse_total (s : Schema) (ic : Bool) (b : Bytes) :
+    b.length ≤ maxInput → parse s ic b ≠ .panic := by
+  intro hb h
+  have := parse_sat maxInput s ic b hb
+  rw [h] at this
+  exact Nat.lt_irrefl _ this
+
+/-- non-vacuity: a well-formed input really is decoded (one name `/8=A`), -/
+example : parse exName false [7, 3, 8, 1, 65] = .ok (.cons (.name [⟨8, [65]⟩]) .nil) 64 := by rfl
+/-- a length field larger than the input is an error, not a panic, -/
+example : parse exName false [7, 0xfe, 0xff, 0xff, 0xff, 0xff, 8, 1, 65] = .err 0 := by rfl
+/-- and the panic outcome is real in the model: `make` with a huge length is `panic`, only the
+    remaining-bytes guards keep the readers away from it. -/
+example : goMake (2 ^ 44) 32 = .panic := by rfl
+
+/-- PROPERTY (termination): fuel `b.length + 1` always suffices, whatever the input length. -/
+theorem parse_fuel_free (s : Schema) (ic : Bool) (b : Bytes) : parse s ic b ≠ .fuel := by
+  intro h
+  have := parse_sat b.length s ic b (Nat.le_refl _)
+  rw [h] at this
+  exact this
+
+/-- non-vacuity: nested model, three elements + two inner ones, every loop runs to completion; one
+    fuel unit less than `b.length + 1` is NOT always enough (empty input needs the one iteration). -/
+example : parse exNested false [1, 1, 5, 2, 2, 9, 9, 3, 6, 7, 0, 7, 2, 8, 0]
+    = .ok (.cons (.nat 5) (.cons (.bytes [9, 9])
+        (.cons (.struct (.cons (.seq (.cons (.name []) (.cons (.name [⟨8, []⟩]) .nil))) .nil)) .nil))) 98 := by
+  rfl
+example : loopU (compile exName.fields) false 0 [] (initAcc (compile exName.fields)) = .fuel := by rfl
+
+/-- PROPERTY (allocation): what a parse allocates on the say-so of length fields is at most 16 bytes
+    per input byte. -/
+theorem parse_alloc_linear (s : Schema) (ic : Bool) (b : Bytes) :
+    b.length ≤ maxInput → (parse s ic b).alloc ≤ 16 * b.length := by
+  intro hb
+  have := parse_sat maxInput s ic b hb
+  cases h : parse s ic b with
+  | ok v a => rw [h] at this; exact this
+  | err a => rw [h] at this; exact this
+  | panic => simp [Res.alloc]
+  | fuel => simp [Res.alloc]
+
+/-- non-vacuity and tightness: an empty name (2 input bytes) allocates `make(enc.Name, 1)` = 32 bytes
+    = 16 · 2; the constant 16 cannot be lowered. -/
+example : (parse exName false [7, 0]).alloc = 32 ∧ 16 * [7, 0].length = 32 := by decide
+example : (parse exName false [7, 3, 8, 1, 65]).alloc = 64 := by decide
+
+
+end Decoders
+
+/-! # Part II — receive path -/
+
+
+/-! ## 1. GetFWThread -/
+
+/-- GetFWThread never indexes out of range and only returns existing threads. -/
+theorem dispatch_total (n id : Nat) :
+    ∃ r, getThread n id = some r ∧ (∀ i, r = some i → i < n) :=
+  getThread_some n id
+
+example : getThread 4 3 = some (some 3) := by decide
+example : getThread 4 4 = some none := by decide       -- the repaired boundary `id == len`
+
+/-! ## 2. reassemblePacket and the store invariant -/
+
+/-- every partial message has between 1 and `maxFragments` slots -/
+def StoreOk (st : LinkSt) : Prop :=
+  ∀ e ∈ st.store, e.2.length ≤ maxFragments ∧ 0 < e.2.length
+
+/-- number of fragment slots allocated in the partial-message store -/
+def slots (st : LinkSt) : Nat := (st.store.map (·.2.length)).sum
+
+/-- number of fragment bytes held in the partial-message store -/
+def storeBytes (st : LinkSt) : Nat := (st.store.map (fun e => (e.2.map List.length).sum)).sum
+
+/-- the link service's initial state: empty store -/
+def initSt : LinkSt := { store := [] }
+
+/-- process a sequence of frames; `none` = some frame made the Go code panic -/
+def runFrames (c : Cfg) : LinkSt → List Bytes → Option LinkSt
+  | st, [] => some st
+  | st, f :: fs =>
+    match handleFrame c st f with
+    | none => none
+    | some (st', _) => runFrames c st' fs
+
+theorem storeOk_init : StoreOk initSt := by
+  intro e he; simp [initSt] at he
+
+/-- `reassemblePacket` never panics (no index out of range, no absurd `make`), for every stored
+    state — the repaired code does not even need the store invariant. -/
+theorem reassemble_total (st : LinkSt) (base idx cnt : Nat) (frag : Bytes) :
+    reassemble st base idx cnt frag ≠ none := by
+  intro h
+  rcases reassemble_cases st base idx cnt frag with hc | ⟨e, _, _, _, _, _, hc | hc⟩ <;>
+    rw [h] at hc <;> cases hc
+
+-- FragIndex ≥ FragCount (the F-04c crash input) is dropped, state unchanged
+example : reassemble initSt 7 5 2 [1] = some (initSt, none) := by rfl
+-- FragCount = 2^32 (the makeslice input) is dropped
+example : reassemble initSt 7 0 (2 ^ 32) [1] = some (initSt, none) := by
+  simp [reassemble, maxFragments]
+-- the interesting branch: first fragment of two is stored
+example : reassemble initSt 7 0 2 [1] = some ({ store := [(7, [[1], []])] }, none) := by rfl
+
+/-- the store invariant is preserved by `reassemblePacket` -/
+theorem reassemble_preserves_storeOk (st : LinkSt) (base idx cnt : Nat) (frag : Bytes)
+    (st' : LinkSt) (w : Option Bytes)
+    (h : reassemble st base idx cnt frag = some (st', w)) (hs : StoreOk st) : StoreOk st' := by
+  rcases reassemble_cases st base idx cnt frag with hc | ⟨e, h0, h1, _, hl, _, hc | hc⟩
+  · rw [h] at hc; cases hc; exact hs
+  · rw [h] at hc; cases hc
+    exact storeOkL_storeErase (l := st.store) hs
+  · rw [h] at hc; cases hc
+    refine storeOkL_storeSet (l := st.store) hs ?_
+    simp only [List.length_set]; omega
+
+example : StoreOk { store := [(7, [[1], []])] } := by
+  intro e he; simp at he; subst he; simp [maxFragments]
+
+/-! ## 3. handleIncomingFrame never panics -/
+
+/-- unconditional form: for every state, decoder and frame -/
+theorem handleFrame_never_panics (c : Cfg) (st : LinkSt) (frame : Bytes) :
+    handleFrame c st frame ≠ none := by
+  obtain ⟨st', d, h, _⟩ := handleFrame_shape c st frame
+  rw [h]; simp
+
+theorem handleFrame_total (c : Cfg) (st : LinkSt) (frame : Bytes) :
+    StoreOk st → handleFrame c st frame ≠ none :=
+  fun _ => handleFrame_never_panics c st frame
+
+/-- the store invariant is preserved by `handleIncomingFrame` -/
+theorem handleFrame_preserves_storeOk (c : Cfg) (st : LinkSt) (frame : Bytes)
+    (st' : LinkSt) (d : Deliver)
+    (h : handleFrame c st frame = some (st', d)) (hs : StoreOk st) : StoreOk st' := by
+  obtain ⟨st1, d1, h1, hc⟩ := handleFrame_shape c st frame
+  rw [h] at h1; cases h1
+  rcases hc with hc | ⟨base, idx, cnt, st'', w, hr, hc⟩
+  · unfold StoreOk; rw [hc]; exact hs
+  · have := reassemble_preserves_storeOk st base idx cnt _ st'' w hr hs
+    unfold StoreOk; rw [hc]; exact this
+
+/-- a decoder for the examples: a frame `[s, i, n, x]` is an LpPacket with Sequence `s`,
+    FragIndex `i`, FragCount `n` and the one-byte fragment `[x]`; `[5]` and `[5, 5]` are bare Interests,
+    `[6]` a bare Data; everything else fails to decode. -/
+def exDec : Bytes → Option Pkt
+  | [s, i, n, x] =>
+    some { interest := false, data := false,
+           lp := some { seq := some s, idx := some i, cnt := some n, token := none,
+                        fragment := some [x] } }
+  | [5] => some { interest := true, data := false, lp := none }
+  | [5, 5] => some { interest := true, data := false, lp := none }
+  | [6] => some { interest := false, data := true, lp := none }
+  | _ => none
+
+def exCfg : Cfg := { reassembly := true, threads := 2, dec := exDec }
+
+-- the interesting branch: a fragment 1 of 3 goes through `reassemble` and is stored
+example : handleFrame exCfg initSt [9, 1, 3, 5] =
+    some ({ store := [(8, [[], [5], []])] }, .nothing) := by rfl
+-- the crash input of F-04c (FragIndex 7 ≥ FragCount 3) is dropped
+example : handleFrame exCfg initSt [9, 7, 3, 5] = some (initSt, .nothing) := by rfl
+-- the second fragment completes the two-fragment Interest `[5, 5]`: entry erased, Interest delivered
+example : handleFrame exCfg { store := [(9, [[5], []])] } [10, 1, 2, 5] =
+    some ({ store := [], nInInterests := 1 }, .interest) := by rfl
+example : (runFrames exCfg initSt [[9, 0, 2, 5], [10, 1, 2, 5]]) =
+    some { store := [], nInInterests := 1 } := by rfl
+-- a fragment whose FragCount disagrees with the stored entry is dropped, entry kept
+example : handleFrame exCfg { store := [(9, [[5], []])] } [10, 1, 3, 5] =
+    some ({ store := [(9, [[5], []])] }, .nothing) := by rfl
+
+/-- no frame sequence makes the link service panic -/
+theorem runFrames_total (c : Cfg) (frames : List Bytes) :
+    ∀ st, StoreOk st → ∃ st', runFrames c st frames = some st' ∧ StoreOk st' := by
+  induction frames with
+  | nil => intro st hs; exact ⟨st, rfl, hs⟩
+  | cons f fs ih =>
+    intro st hs
+    obtain ⟨st1, d1, h1, _⟩ := handleFrame_shape c st f
+    have hs1 := handleFrame_preserves_storeOk c st f st1 d1 h1 hs
+    obtain ⟨st', h', hs'⟩ := ih st1 hs1
+    exact ⟨st', by simp only [runFrames, h1, h'], hs'⟩
+
+theorem frames_total (c : Cfg) (frames : List Bytes) : runFrames c initSt frames ≠ none := by
+  obtain ⟨st', h, _⟩ := runFrames_total c frames initSt storeOk_init
+  rw [h]; simp
+
+example : runFrames exCfg initSt [[9, 1, 3, 5], [9, 7, 3, 5], [1, 2]] =
+    some { store := [(8, [[], [5], []])] } := by rfl
+
+/-! ## 4. the store grows by a bounded amount per frame -/
+
+theorem reassemble_slots (st : LinkSt) (base idx cnt : Nat) (frag : Bytes)
+    (st' : LinkSt) (w : Option Bytes)
+    (h : reassemble st base idx cnt frag = some (st', w)) : slots st' ≤ slots st + maxFragments := by
+  rcases reassemble_cases st base idx cnt frag with hc | ⟨e, h0, h1, _, hl, _, hc | hc⟩
+  · rw [h] at hc; cases hc; omega
+  · rw [h] at hc; cases hc
+    have := slotsL_storeErase st.store base
+    simp only [slots, slotsL] at this ⊢; omega
+  · rw [h] at hc; cases hc
+    have := slotsL_storeSet st.store base (e.set idx frag)
+    simp only [slots, slotsL, List.length_set] at this ⊢; omega
+
+/-- one frame allocates at most `maxFragments` slots -/
+theorem store_bounded_step (c : Cfg) (st : LinkSt) (frame : Bytes) (st' : LinkSt) (d : Deliver)
+    (h : handleFrame c st frame = some (st', d)) : slots st' ≤ slots st + maxFragments := by
+  obtain ⟨st1, d1, h1, hc⟩ := handleFrame_shape c st frame
+  rw [h] at h1; cases h1
+  rcases hc with hc | ⟨base, idx, cnt, st'', w, hr, hc⟩
+  · simp only [slots, hc]; omega
+  · have := reassemble_slots st base idx cnt _ st'' w hr
+    simp only [slots, hc] at this ⊢; exact this
+
+theorem store_bounded_from (c : Cfg) (frames : List Bytes) :
+    ∀ st st', runFrames c st frames = some st' →
+      slots st' ≤ slots st + maxFragments * frames.length := by
+  induction frames with
+  | nil => intro st st' h; simp only [runFrames, Option.some.injEq] at h; subst h; simp
+  | cons f fs ih =>
+    intro st st' h
+    obtain ⟨st1, d1, h1, _⟩ := handleFrame_shape c st f
+    simp only [runFrames, h1] at h
+    have := store_bounded_step c st f st1 d1 h1
+    have := ih st1 st' h
+    simp only [List.length_cons, Nat.mul_succ]; omega
+
+/-- from the empty store, after `k` frames at most `maxFragments * k` slots are allocated -/
+theorem store_bounded (c : Cfg) (frames : List Bytes) (st' : LinkSt)
+    (h : runFrames c initSt frames = some st') : slots st' ≤ maxFragments * frames.length := by
+  have := store_bounded_from c frames initSt st' h
+  simpa [slots, initSt] using this
+
+example : slots { store := [(8, [[], [5], []])] } = 3 := by decide
+
+theorem reassemble_bytes (st : LinkSt) (base idx cnt : Nat) (frag : Bytes)
+    (st' : LinkSt) (w : Option Bytes)
+    (h : reassemble st base idx cnt frag = some (st', w)) :
+    storeBytes st' ≤ storeBytes st + frag.length := by
+  rcases reassemble_cases st base idx cnt frag with hc | ⟨e, h0, h1, _, hl, hf, hc | hc⟩
+  · rw [h] at hc; cases hc; omega
+  · rw [h] at hc; cases hc
+    have := bytesL_storeErase st.store base
+    simp only [storeBytes, bytesL, fragBytes] at this ⊢; omega
+  · rw [h] at hc; cases hc
+    have hset := fragBytes_set e idx frag
+    rcases hf with hf | ⟨hf, he⟩
+    · have := bytesL_storeSet_some (e.set idx frag) hf
+      simp only [storeBytes, bytesL, fragBytes] at this hset ⊢; omega
+    · have := bytesL_storeSet_none (e.set idx frag) hf
+      have h0 := fragBytes_replicate cnt
+      rw [← he] at h0
+      simp only [storeBytes, bytesL, fragBytes] at this hset h0 ⊢; omega
+
+/-- one frame adds at most the length of its Fragment field to the bytes held in the store -/
+theorem store_bytes_bounded (c : Cfg) (st : LinkSt) (frame : Bytes) (st' : LinkSt) (d : Deliver)
+    (h : handleFrame c st frame = some (st', d)) :
+    storeBytes st' ≤ storeBytes st + (fragOf c frame).length := by
+  obtain ⟨st1, d1, h1, hc⟩ := handleFrame_shape c st frame
+  rw [h] at h1; cases h1
+  rcases hc with hc | ⟨base, idx, cnt, st'', w, hr, hc⟩
+  · simp only [storeBytes, hc]; omega
+  · have := reassemble_bytes st base idx cnt _ st'' w hr
+    simp only [storeBytes, hc] at this ⊢; exact this
+
+/-- sequence version: the bytes held never exceed the sum of the Fragment lengths seen so far -/
+theorem store_bytes_bounded_from (c : Cfg) (frames : List Bytes) :
+    ∀ st st', runFrames c st frames = some st' →
+      storeBytes st' ≤ storeBytes st + (frames.map (fun f => (fragOf c f).length)).sum := by
+  induction frames with
+  | nil => intro st st' h; simp only [runFrames, Option.some.injEq] at h; subst h; simp
+  | cons f fs ih =>
+    intro st st' h
+    obtain ⟨st1, d1, h1, _⟩ := handleFrame_shape c st f
+    simp only [runFrames, h1] at h
+    have := store_bytes_bounded c st f st1 d1 h1
+    have := ih st1 st' h
+    simp only [List.map_cons, List.sum_cons]; omega
+
+example : fragOf exCfg [9, 1, 3, 5] = [5] ∧ storeBytes { store := [(8, [[], [5], []])] } = 1 := by
+  decide
+
+/-! ## 5. a frame that fails to decode changes nothing -/
+
+theorem reject_no_state_change (c : Cfg) (st : LinkSt) (frame : Bytes) :
+    c.dec frame = none → handleFrame c st frame = some (st, .nothing) := by
+  intro h; simp only [handleFrame, h]
+
+example : exCfg.dec [1, 2] = none := by decide
+
+/-! ## 6. readTlvStream never slices out of range -/
+
+theorem stream_no_panic (f : Nat) : ∀ (cs : List Bytes) (s : StreamSt) (fr : List Bytes),
+    s.recvOff ≤ bufCap → (stream f cs s fr).2 ≠ .panic := by
+  induction f with
+  | zero => intro cs s fr _; simp [stream]
+  | succ f ih =>
+    intro cs s fr hs
+    cases cs with
+    | nil => simp [stream]
+    | cons c cs =>
+      rw [stream]
+      simp only
+      split
+      · simp
+      · rename_i hfree
+        have hs1 : (⟨s.tlvOff, s.data ++ c.take (min c.length (bufCap - s.recvOff))⟩ : StreamSt).recvOff
+            ≤ bufCap := by
+          simp only [StreamSt.recvOff, List.length_append, List.length_take] at hs ⊢; omega
+        split
+        · rename_i hi
+          exact absurd hi (inner_no_panic _ _ _ hs1)
+        · simp
+        · rename_i s2 fr' hi
+          obtain ⟨h2, _⟩ := inner_cont _ _ _ _ _ hi
+          apply ih
+          split
+          · simp only [StreamSt.recvOff] at h2 hs1 ⊢; omega
+          · omega
+
+example : (⟨0, []⟩ : StreamSt).recvOff ≤ bufCap := by decide
+
+/-! ## 7. readTlvStream never reads into a zero-length destination -/
+
+/-- loop invariant at the top of the outer loop: the buffer was compacted and holds at most one
+    packet's worth of unread bytes -/
+def Inv (s : StreamSt) : Prop := s.tlvOff = 0 ∧ s.data.length ≤ maxPkt
+
+theorem inv_init : Inv ⟨0, []⟩ := by simp [Inv]
+
+/-- one outer iteration re-establishes the invariant -/
+theorem inv_step {s : StreamSt} {d : Bytes} {s2 : StreamSt} {fr fr' : List Bytes}
+    (hi : inner ((s.data ++ d).length + 1) ⟨s.tlvOff, s.data ++ d⟩ fr = .cont s2 fr') :
+    Inv (if s2.data.length ≤ maxPkt then ⟨0, s2.data⟩ else s2) := by
+  obtain ⟨_, h2⟩ := inner_cont _ _ _ _ _ hi
+  have := h2 (by simp only; omega)
+  simp only [this, if_true, Inv, and_self]
+
+theorem stream_progress (f : Nat) : ∀ (cs : List Bytes) (s : StreamSt) (fr : List Bytes),
+    Inv s → (stream f cs s fr).2 ≠ .spin := by
+  induction f with
+  | zero => intro cs s fr _; simp [stream]
+  | succ f ih =>
+    intro cs s fr hs
+    cases cs with
+    | nil => simp [stream]
+    | cons c cs =>
+      rw [stream]
+      simp only
+      split
+      · rename_i hfree
+        obtain ⟨h0, h1⟩ := hs
+        simp only [StreamSt.recvOff, bufCap, maxPkt] at hfree h0 h1; omega
+      · split
+        · simp
+        · simp
+        · rename_i s2 fr' hi
+          exact ih _ _ _ (inv_step hi)
+
+/-! ## 8. readTlvStream terminates by EOF or by an error return, nothing else -/
+
+theorem stream_fuel (f : Nat) : ∀ (cs : List Bytes) (s : StreamSt) (fr : List Bytes),
+    Inv s → chunksFuel cs ≤ f → (stream f cs s fr).2 ≠ .fuel := by
+  induction f with
+  | zero => intro cs s fr _ hf; simp only [chunksFuel] at hf; omega
+  | succ f ih =>
+    intro cs s fr hs hf
+    cases cs with
+    | nil => simp [stream]
+    | cons c cs =>
+      rw [stream]
+      simp only
+      split
+      · simp
+      · rename_i hfree
+        split
+        · simp
+        · simp
+        · rename_i s2 fr' hi
+          refine ih _ _ _ (inv_step hi) ?_
+          split
+          · simp only [chunksFuel, List.map_cons, List.sum_cons] at hf ⊢; omega
+          · rename_i hn
+            simp only [chunksFuel, List.map_cons, List.sum_cons, List.length_drop] at hf ⊢
+            omega
+
+/-- for every chunking of the input, the framing loop ends with EOF or an error return: no slice
+    panic, no zero-length read spin, and the model's fuel is never the reason it stops -/
+theorem stream_total (chunks : List Bytes) :
+    (runStream chunks).2 ≠ .panic ∧ (runStream chunks).2 ≠ .spin ∧ (runStream chunks).2 ≠ .fuel := by
+  refine ⟨?_, ?_, ?_⟩
+  · exact stream_no_panic _ _ _ _ (by decide)
+  · exact stream_progress _ _ _ _ inv_init
+  · exact stream_fuel _ _ _ _ inv_init (Nat.le_refl _)
+
+theorem stream_total' (chunks : List Bytes) :
+    (runStream chunks).2 = .eof ∨ (runStream chunks).2 = .err := by
+  obtain ⟨h1, h2, h3⟩ := stream_total chunks
+  cases h : (runStream chunks).2 <;> simp_all
+
+-- a two-byte TLV `[1,0]` delivered across two reads, then EOF
+example : runStream [[1], [0]] = ([[1, 0]], .eof) := by
+  simp [runStream, chunksFuel, stream, inner, decTL, tlLen, bufCap, maxPkt, StreamSt.recvOff]
+-- a length above the buffer capacity: error return, not a panic (F-04b)
+example : runStream [[1, 0xfe, 0xff, 0xff, 0xff, 0xff]] = ([], .err) := by
+  simp [runStream, chunksFuel, stream, inner, decTL, tlExtra, beDec, bufCap, maxPkt,
+    StreamSt.recvOff]
+
 
 end Ndn.C04
